@@ -35,6 +35,10 @@ import (
 
 const watchdog = 30 * time.Second
 
+// hung counts statements that produced no result within the watchdog; once one has, the scenarios not yet started
+// are skipped (the violation is already established and every further hang costs a full watchdog period).
+var hung int64
+
 // ---------------------------------------------------------------- scripted host selection policy
 
 type scriptPolicy struct {
@@ -620,7 +624,9 @@ func runEx(d scenario) (answer string) {
 		select {
 		case err = <-errc:
 		case <-time.After(watchdog):
-			dumpGoroutines("no result after " + watchdog.String() + ": " + d.op())
+			if atomic.AddInt64(&hung, 1) == 1 {
+				dumpGoroutines("no result after " + watchdog.String() + ": " + d.op())
+			}
 			return strings.Join(append(parts, "hang"), " | ")
 		}
 		fin := ""
@@ -776,10 +782,9 @@ func runSpec(kind, idem string, a int, nhosts int, allGone bool, r *vh.Rng) stri
 			errc <- st.exec("e")
 		}
 	}()
+	// on the unchanged code exactly min(want, nhosts) requests arrive; when want > nhosts the execution that finds
+	// the shared iterator exhausted delivers ErrNoConnections by itself
 	want := maxExecutions(idem == "1", a)
-	if want > nhosts {
-		want = nhosts
-	}
 	// wait for the executions to reach the servers (or for a result that needs no answer); the wait only shapes
 	// the schedule, no verdict depends on it
 	var resErr error
@@ -823,7 +828,8 @@ wait:
 			mu.Lock()
 			n := len(arrived)
 			mu.Unlock()
-			return fmt.Sprintf("spec %s %s %d %d %d %s hang", kind, idem, a, nhosts, n, released)
+			atomic.AddInt64(&hung, 1)
+			return fmt.Sprintf("spec %s %s %d %d %d 0 %s hang", kind, idem, a, nhosts, n, released)
 		}
 	}
 	result := ""
@@ -844,8 +850,15 @@ wait:
 	time.Sleep(5 * time.Millisecond)
 	mu.Lock()
 	n := len(arrived)
+	perHost, most := map[string]int{}, 0
+	for _, h := range arrived {
+		perHost[h.ip]++
+		if perHost[h.ip] > most {
+			most = perHost[h.ip]
+		}
+	}
 	mu.Unlock()
-	return fmt.Sprintf("spec %s %s %d %d %d %s %s", kind, idem, a, nhosts, n, released, result)
+	return fmt.Sprintf("spec %s %s %d %d %d %d %s %s", kind, idem, a, nhosts, n, most, released, result)
 }
 
 // runSpecRetry: idempotent statement, speculative policy with a tiny delay, retry policy, every host answers every
@@ -860,13 +873,19 @@ func runSpecRetry(kind, policy string, a, nhosts int, fates []string, r *vh.Rng)
 	cl := memcluster.NewCluster(4, ips...)
 	var nreq int64
 	var wg sync.WaitGroup
+	var pmu sync.Mutex
+	perHost := map[string]int{}
 	pauses := make([]time.Duration, 64)
 	for i := range pauses {
 		pauses[i] = time.Duration(r.Intn(1500)) * time.Microsecond
 	}
-	for _, n := range cl.Nodes {
+	for ip, n := range cl.Nodes {
+		ip := ip
 		n.Handle = func(req *memcluster.Request) {
 			k := int(atomic.AddInt64(&nreq, 1)) - 1
+			pmu.Lock()
+			perHost[ip]++
+			pmu.Unlock()
 			f := fates[k%len(fates)]
 			wg.Add(1)
 			go func() {
@@ -898,7 +917,8 @@ func runSpecRetry(kind, policy string, a, nhosts int, fates []string, r *vh.Rng)
 	case resErr = <-errc:
 	case <-time.After(watchdog):
 		dumpGoroutines("speculative statement with retries: no result after " + watchdog.String())
-		return fmt.Sprintf("specr %s %s %d %d %d hang", kind, policy, a, nhosts, atomic.LoadInt64(&nreq))
+		atomic.AddInt64(&hung, 1)
+		return fmt.Sprintf("specr %s %s %d %d %d 0 hang", kind, policy, a, nhosts, atomic.LoadInt64(&nreq))
 	}
 	// executions that were not cancelled with the result (a batch's are not) finish their retries: wait until the
 	// request count is quiet (stopping early can only under-count, never raise an alarm)
@@ -922,7 +942,15 @@ func runSpecRetry(kind, policy string, a, nhosts int, fates []string, r *vh.Rng)
 	default:
 		result = fmt.Sprintf("err%d", errKind(resErr))
 	}
-	return fmt.Sprintf("specr %s %s %d %d %d %s", kind, policy, a, nhosts, atomic.LoadInt64(&nreq), result)
+	most := 0
+	pmu.Lock()
+	for _, v := range perHost {
+		if v > most {
+			most = v
+		}
+	}
+	pmu.Unlock()
+	return fmt.Sprintf("specr %s %s %d %d %d %d %s", kind, policy, a, nhosts, atomic.LoadInt64(&nreq), most, result)
 }
 
 // ---------------------------------------------------------------- ops
@@ -1074,11 +1102,16 @@ func main() {
 		go func(i int) {
 			defer wgr.Done()
 			defer func() { <-sem }()
-			results[i] = runEx(scen[i])
+			if atomic.LoadInt64(&hung) == 0 {
+				results[i] = runEx(scen[i])
+			}
 		}(i)
 	}
 	wgr.Wait()
 	for i, d := range scen {
+		if results[i] == "" {
+			continue // skipped after a hang
+		}
 		if strings.HasPrefix(results[i], "fatal") {
 			fmt.Fprintln(os.Stderr, "c13:", d.op(), results[i])
 		}
@@ -1091,7 +1124,7 @@ func main() {
 		out.Case(d.op(), results[i], cls, len(d.hosts) > 0)
 	}
 	kinds := []string{"q", "bl", "bu", "bc"}
-	for i := 0; i < runs/64; i++ {
+	for i := 0; i < runs/64 && atomic.LoadInt64(&hung) == 0; i++ {
 		kind := kinds[r.Intn(len(kinds))]
 		idem := []string{"0", "1", "1", "1"}[r.Intn(4)]
 		if kind != "q" && r.Intn(5) == 0 {
@@ -1104,7 +1137,7 @@ func main() {
 		}
 		out.Case(op, "accept", "spec/"+kind+"/idem="+idem, true)
 	}
-	for i := 0; i < runs/64; i++ {
+	for i := 0; i < runs/64 && atomic.LoadInt64(&hung) == 0; i++ {
 		kind := kinds[r.Intn(len(kinds))]
 		var policy string
 		var fates []string
